@@ -419,19 +419,31 @@ class SATEncoder:
         max_end = max(s.ub + d for s, d in zip(starts, durations))
 
         for t in range(min_start, max_end):
+            # One "task i runs at time t" literal per task: its start literals are mutually
+            # exclusive, so the overload subsets are enumerated over tasks, not start values.
             active_lits = []
             active_demands = []
             for i in range(n):
-                for s in range(max(starts[i].lb, t - durations[i] + 1), min(starts[i].ub, t) + 1):
-                    if s in starts[i].bool_vars and s <= t < s + durations[i]:
-                        active_lits.append(starts[i].bool_vars[s])
-                        active_demands.append(demands[i])
+                lits = [
+                    starts[i].bool_vars[s]
+                    for s in range(max(starts[i].lb, t - durations[i] + 1), min(starts[i].ub, t) + 1)
+                    if s in starts[i].bool_vars
+                ]
+                if not lits:
+                    continue
+                if len(lits) == 1:
+                    running = lits[0]
+                else:
+                    running = self._new_bool_var()
+                    for lit in lits:
+                        self._clauses.append([-lit, running])
+                active_lits.append(running)
+                active_demands.append(demands[i])
 
             if not active_lits:
                 continue
 
-            if len(active_lits) <= 10:
-                self._encode_capacity_constraint(active_lits, active_demands, capacity)
+            self._encode_capacity_constraint(active_lits, active_demands, capacity)
 
     def _encode_capacity_constraint(self, lits: list[int], demands: list[int], capacity: int) -> None:
         """Encode sum constraint: if all lits true, demands sum must <= capacity."""
